@@ -398,8 +398,22 @@ def _obs_cost(y):
     return enc(y)
 
 
+def _min_ok(m):
+    """min() names the record with the smallest cost as the user gave it (whatever k scales it by internally); None when not applicable"""
+    try:
+        ys = list(m.y)
+        if not ys or any(isinstance(v, (list, tuple)) or hasattr(v, "__len__") or v != v for v in ys):
+            return None
+        r = m.min()
+        j = min(range(len(ys)), key=lambda i: (ys[i], i))
+        xa, xb = list(map(float, r[0])), list(map(float, m.x[j]))
+        return bool(float(r[1]) == float(ys[j]) and len(xa) == len(xb) and all(a == b or (a != a and b != b) for a, b in zip(xa, xb)))
+    except Exception:
+        return None
+
+
 def _obs_monitor(m):
-    return dict(x=enc_tree(m.x), y=[_obs_cost(v) for v in m.y], id=[_id_val(i) for i in m.id],
+    return dict(x=enc_tree(m.x), y=[_obs_cost(v) for v in m.y], id=[_id_val(i) for i in m.id], min_ok=_min_ok(m),
                 info=list(m.get_info()), k=(None if m.k is None else enc(m.k)), len=len(m), cls=type(m).__name__)
 
 
@@ -835,6 +849,8 @@ def _oracle_ops(case, obs):
             out.append(_fail("k_kept", "Monitor.k", "value", dict(monitor=j, got=o["k"], want=s["k"])))
         if o["cls"] != s["cls"]:
             out.append(_fail("class_kept", "Monitor.__getitem__", "class", dict(monitor=j, got=o["cls"], want=s["cls"])))
+        if o.get("min_ok") is False:
+            out.append(_fail("y_roundtrip_k_transparent", "Monitor.min", "min-is-not-the-smallest-recorded-cost", dict(monitor=j, k=s["k"], y=o["y"])))
     for (t, i, _), q in zip(case["queries"], obs["queries"]):
         s = shadow[t]
         n = len(s["x"])
